@@ -435,6 +435,16 @@ where
         }
     }
 
+    /// Verification hook (compiled only by `cargo kani`): forwards to the private skip-list lookup.
+    #[cfg(kani)]
+    pub(crate) fn verif_is_state_skip_token(
+        &self,
+        token_type: TerminalIndex,
+        scanner_state: ScannerIndex,
+    ) -> bool {
+        self.is_state_skip_token(token_type, scanner_state)
+    }
+
     /// Sets the token stream in error recovery mode.
     /// In this mode the parser can try to read more tokens even if the end of input is reached.
     /// The token stream will return EOI tokens if the token buffer is empty.
